@@ -33,6 +33,13 @@ SCENARIOS = {
     'registered_default_permissive': dict(regs=[('foo', '!'), ('x', 'role:a')], main_old={'default': '@', 'x': 'role:a'},
                                           main_new={'default': '@', 'x': 'role:b'}, dir_old={'y': '!'}, dir_new={'y': '!'},
                                           query='foo'),
+    # both threads evaluate a rule built from references; the files do not change the referenced rules
+    'alias_evaluation': dict(regs=[('x', 'role:a')], main_old={'admin': 'role:a', 'owner': 'role:a or role:b', 'x': 'role:a',
+                                                              'both': 'rule:admin and rule:owner and not rule:nobody',
+                                                              'nobody': 'role:zz'},
+                             main_new={'admin': 'role:a', 'owner': 'role:a or role:b', 'x': 'role:b',
+                                       'both': 'rule:admin and rule:owner and not rule:nobody', 'nobody': 'role:zz'},
+                             dir_old={'y': '!'}, dir_new={'y': '!'}, query='both', no_model=True),
     'deprecated_defaults': dict(regs=[('np', 'role:zz', ('op', 'role:zz')), ('x', 'role:a')], main_old={'x': 'role:a'},
                                 main_new={'x': 'role:b'}, dir_old={'op': 'role:a'}, dir_new={'op': 'role:a'}, query='np',
                                 expect_same=True),
@@ -140,7 +147,7 @@ def run(ctx, rep):
     # correspondence with the Lean small-step model: the set of decisions obtainable over all one-switch schedules
     reqs, names = [], []
     for name, sc in SCENARIOS.items():
-        if len(sc['regs'][0]) > 2:
+        if len(sc['regs'][0]) > 2 or sc.get('no_model'):
             continue        # deprecation is not in the scheduling model
         ids = {}
 
